@@ -671,6 +671,7 @@ func runC01(c *Ctx) {
 	ruleLineReaderValue(c, "R01.c")
 	ruleOwnedBytes(c, "R01.c")
 	rulePayloadStores(c, "R01.e")
+	ruleIsNilMeansNull(c, "R01.e")
 	ruleConstructors(c)
 	c.assume("bytes.Buffer and strconv behave as documented")
 }
